@@ -34,6 +34,15 @@ CLAIMED = {
  "C10": ("SSA sign-check (dominance) analysis of base codes looked up through the alphabet index table before they are packed into the k-mer word",
          "Decides one necessary guard of 'no invalid letter inside a reported k-mer': every looked-up base code is sign-checked before conversion to the unsigned k-mer word in ForEachKmerOf and both KmerOf functions. It does not decide the index's correctness (watermark arithmetic, prefix sums, bucket bounds are value-level).",
          "alphabet.Index holds -1 for letters outside the alphabet", "DESIGN.md §2.I, §4/C10"),
+ "C11": ("must-assign analysis (must-pass over the SSA CFG) of every per-cycle field of Morass in Clear, with the computed cycle state and the Finalise-re-establishes alternative",
+         "Decides that after Clear no per-cycle field (pos, len, fast, chunk, files, _err — computed from the writes of Push/write/Finalise/Pull) keeps a value from the previous cycle on any path: a necessary condition of 'whatever earlier cycles did'. Sortedness, multiset equality and Pos/Len arithmetic are value-level and not decided.",
+         "API protocol Push* Finalise Pull* Clear", "DESIGN.md §2.K, §4/C11"),
+ "C12": ("go-statement join analysis (WaitGroup Add dominates go, deferred Done, Wait dominates the shared-field reads, error slot consulted after the wait) and must-hold lockset dataflow over the SSA CFG",
+         "Decides, for every schedule, that Finalise cannot read the run-file list while a background writer started by Push may still be registering or encoding its run, and that files/_err are accessed under their locks in all writer-reachable code. It does not decide absence of every data race nor deadlock freedom of the pool/writable protocol.",
+         "sync.WaitGroup/Mutex semantics; Pull and Clear run after Finalise returned", "DESIGN.md §2.L, §4/C12"),
+ "C13": ("error-slot discipline on SSA: setErr arguments proven non-nil by dominating tests (sticky), data flow of every TempFile/Encode/Sync/Seek/Decode error to a return or the slot, must-pass of err() before nil returns; dominance of AutoClear/AutoClean tests over every end-of-data branch of Pull",
+         "Decides that a recorded writer error cannot be overwritten by a later success, that no I/O error of the listed operations is dropped, that Push/Finalise consult the slot before returning nil, and that both end-of-data branches of Pull honour AutoClear and AutoClean. It does not decide that delivered values are right after a fault.",
+         "an error that reaches a return or the slot is reported by a later Push/Finalise/Pull", "DESIGN.md §2.M, §4/C13"),
  "C17": ("constant-table consistency check over go/types constant values of the built-in alphabet definitions (AST + types)",
          "Decides, for the seven built-in alphabets, every clause the property states about their *definitions* (distinct ASCII letters, involutive case-preserving pairing closed over the alphabet, 3-minus-index complement rule, gap at index 0) from the constants in the source. It does not decide that the constructors build the tables the definitions describe.",
          "go/types constant evaluation; constructors interpret their arguments positionally", "DESIGN.md §2.J, §4/C17"),
